@@ -9,6 +9,7 @@ import (
 	"bufio"
 	"bytes"
 	"crypto/sha256"
+	"encoding/binary"
 	"encoding/hex"
 	"fmt"
 	"math/big"
@@ -140,6 +141,59 @@ func (t *T) hashSection() {
 			_, _ = h.Write(mm[:cut])
 			_, _ = h.Write(mm[cut:])
 			t.line("hash-split", a.name, fmt.Sprintf("%s@%d", dg(m), cut), hx(h.SumHash()))
+		}
+	}
+	// structured content (zero / sparse / periodic lanes, small integers): content-dependent code paths
+	for _, a := range algs {
+		span := 2*a.rate + 16
+		var ms [][]byte
+		for _, l := range []int{8, 32, a.rate - 1, a.rate, a.rate + 8, span} {
+			ms = append(ms, make([]byte, l), bytes.Repeat([]byte{0xff}, l), bytes.Repeat(rb(r, 8), l/8+1)[:l])
+		}
+		for l := 0; l*8+8 <= span; l++ {
+			m := make([]byte, span)
+			copy(m[l*8:], rb(r, 8))
+			ms = append(ms, m)
+			m2 := rb(r, span)
+			copy(m2[l*8:l*8+8], make([]byte, 8))
+			ms = append(ms, m2)
+		}
+		for period := 2; period <= 4; period++ {
+			for phase := 0; phase < period; phase++ {
+				m, inv := rb(r, span), rb(r, span)
+				for l := 0; l*8+8 <= span; l++ {
+					if l%period != phase {
+						copy(m[l*8:l*8+8], make([]byte, 8))
+					} else {
+						copy(inv[l*8:l*8+8], make([]byte, 8))
+					}
+				}
+				ms = append(ms, m, inv)
+			}
+		}
+		for p := 0; p < span; p += 3 {
+			m := make([]byte, span)
+			m[p] = 0x80
+			ms = append(ms, m)
+		}
+		for _, v := range []uint64{0, 1, 255, 256, 1 << 32, 1<<64 - 1} {
+			for _, l := range []int{16, 32, 64} {
+				m := make([]byte, l)
+				binary.BigEndian.PutUint64(m[l-8:], v)
+				ms = append(ms, m)
+				m = make([]byte, l)
+				binary.LittleEndian.PutUint64(m, v)
+				ms = append(ms, m)
+			}
+		}
+		h := a.mk()
+		for i, m := range ms {
+			t.line("hash-structured", a.name, dg(m)+fmt.Sprintf("#%d", i), hx(h.ComputeHash(m)))
+			h.Reset()
+			cut := (i * 7) % (len(m) + 1)
+			_, _ = h.Write(m[:cut])
+			_, _ = h.Write(m[cut:])
+			t.line("hash-structured-split", a.name, fmt.Sprintf("%s@%d", dg(m), cut), hx(h.SumHash()))
 		}
 	}
 	var o3, o2 [32]byte
